@@ -127,6 +127,17 @@ def r1_shape_safe(R) -> None:
                         'array of unknown rank is guarded by ndim == 1 and length == len(span)',
                         f'`{n.label()[:70]}` can store an array that is not 1-D of len(span): guards present: length={has_len}, ndim={has_ndim} '
                         f'(e.g. a nested list of the right outer length stores a 2-D array)', where=f.where(n), path=f.path_to(n))
+    # broadcasting a single value is reserved for non-sequences: a sequence of the wrong length must be rejected
+    for q in (f'{VC}.add_variable', f'{VC}.__setattr__'):
+        f = Fn(R, q)
+        for n in f.cfg.nodes:
+            a = n.ast
+            if n.kind == 'stmt' and isinstance(a, ast.Assign) and is_call(a.value, 'np.full', 'numpy.full') and a.value.args and text(a.value.args[0]) in SPAN_LEN:
+                g = [(text(x), truth) for (x, truth, _t) in f.guard_atoms(n.id)]
+                ok = any((not truth) and 'isinstance(value, Sequence)' in a_ for (a_, truth) in g) or ('isinstance(value, str)', True) in g
+                R.check(ok, q, 'broadcast-only-scalars:' + ';'.join(f'{a_}={t}' for a_, t in g)[:80], 'only a non-sequence value is broadcast to the span length',
+                        f'`{n.label()[:60]}` broadcasts under {g}: a sequence (e.g. of length 1) can be broadcast instead of raising DimensionError',
+                        where=f.where(n))
     R.expect('containers', sites, 4, 'statements that replace a series backing array')
     # no other function of the package replaces a backing array
     extra = []
